@@ -45,6 +45,10 @@ class Service(object):
     self._rec('tail', s)
     return s.split(':', 1)[1] if ':' in s else ''     # may well be the empty string
 
+  def concat(self, first, second):
+    self._rec('concat', first, second)
+    return 'first=%s;second=%s' % (first, second)
+
   def lock(self, key, timeout):
     self._rec('lock', key, timeout)
     return 'locked:%s:%r' % (key, timeout)
